@@ -53,3 +53,13 @@ claim('C11', 'fault_enumeration',
       'The IdP stub encrypts to the SP certificate under every data algorithm x key transport x digest x EncryptedKey placement x recipient certificate x SP key configuration (field, TLS field, setter, both; fresh or after restart); per cell DecryptBytes must return the exact bytes for plaintext lengths 0..33 (all residues mod 16, zero-byte tails) plus large ones, Decrypt must unmarshal, and the encrypted Response must give the same outcome, data and flags as its plaintext twin. What decides is enumeration against byte equality; the simulator contributes the second party and the configuration history.',
       'trusted: stub encryptor written from crypto/*',
       'DESIGN.md 4 C11')
+claim('C12', 'fault_enumeration',
+      'deterministic simulation: hostile DEFLATE streams with limit-boundary enumeration and allocation accounting; raw/compressed metamorphic relation',
+      'Expansion sizes limit-1 / limit / limit+1 are enumerated for limits {unset, 1, 64, 4096, 1 MiB} on all six inbound entry points with the padding inside the root and after the root end tag (so a silently truncating reader would still see a well-formed document); bombs up to 64 MiB (quick) / 1 GiB (thorough) nominal expansion, also as the plaintext of an attacker-encrypted assertion, must be rejected while the bytes allocated during the call (runtime.MemStats) stay under 8 x limit + 4 x input + 4 MiB; genuine, non-conforming and corrupted messages must behave identically raw and compressed at any level.',
+      'allocation bound is a heap-bytes proxy for "never materialises more than about the limit"; measured in single-goroutine workers',
+      'DESIGN.md 4 C12')
+claim('C20', 'exploration',
+      'deterministic simulation (thin fit): multi-IdP router scenario, pre-decode vs validation agreement on every accept',
+      'Two IdPs and one SP configuration per IdP sit behind a router stub that calls the real DecodeUnverified* first; SSO Responses and LogoutResponses are issued in every layout of C08 and, where the envelope is not signed or checking is off, shaped by 19 envelope operators (duplicated / shadowed root attributes, several / nested / foreign-namespace Issuers, comments, CDATA, character references), raw or DEFLATE. Whenever validation under any configuration accepts, the pre-decode must have succeeded with equal ID, InResponseTo, Destination, Version and Issuer and the routed-to configuration must be the accepting one. No fault or schedule is essential; the simulator contributes the multi-party routing scenario and the workload.',
+      'envelope shaping is only applied where an attacker could apply it (unsigned envelope or checking off); a colluding IdP signing shadowed attributes is outside the run space',
+      'DESIGN.md 4 C20')
